@@ -184,6 +184,8 @@ class FwdHooks(AutogradModel, solverkit.StepHooks):
             return r
         if dotted == "torch.is_grad_enabled":
             return True
+        if dotted in ("torch.as_tensor",) and args:
+            return args[0]
         if dotted == "torch.bmm":
             return nf.bilinear("bmm", args[0], args[1])
         if dotted == "torch.repeat_interleave":
